@@ -596,7 +596,13 @@ pub fn run<KD: Kind, const N: usize>(case: &Case, cx: &mut Ctx) {
     let mut e = MapEng::<KD, N>::new(cx, case);
     for (i, op) in case.ops.iter().enumerate() {
         e.cx.step = i;
-        e.step(*op);
+        if let Err(payload) = std::panic::catch_unwind(std::panic::AssertUnwindSafe(|| e.step(*op))) {
+            // containers may be half-observed: never touch or drop them again
+            e.poisoned = true;
+            let liar = e.liar;
+            mmv_base::probe::escaped_panic(e.cx, liar, false, payload);
+            break;
+        }
         if e.cx.failed() {
             break;
         }
